@@ -22,7 +22,7 @@ func init() {
 			"R17-blocks — EnterBlock/LeaveBlock are paired on every non-raising path of each compile function that opens a scope; LeaveBlock and compileFunctionExpr call EndScope (every DbgLocalInfo gets an EndPc) and RegisterLocalVar records StartPc; R17-lines — no instruction that can raise at run time is attributed to the closing line of its statement (eline is reserved for block-closing instructions); R17-where — error positions and currentline are read from DbgSourcePositions[Pc-1] of the frame's own prototype; R07-parallel shared (the line table is written in lock-step with the code). " +
 			"R17-scope — the scope records debug.getlocal reads: the end of a scope is written through the block's own records (never through DbgLocals[register]), and the writer's convention for EndPc/StartPc (LastPC()+1, exclusive end) agrees with the reader's comparisons in LFunction.LocalName. NOT decided: which line each instruction receives, pc-range correctness after the peephole passes.",
 		Trusted: []string{},
-		Rules:   []func(*Ctx){ruleHiddenLoopVariablesScope, ruleWhereKeepsSkipping, ruleSetLine, ruleRawRead, ruleBlocks, ruleWhere, ruleRaisingLines, ruleParallel, ruleScopes, ruleShebangLine, ruleOneLineReader, ruleGetStackLevel, ruleParenKeepsFunctionLine, ruleLocalAccessorsAgree, ruleTemporaryNeedsPositiveIndex},
+		Rules:   []func(*Ctx){ruleUpvalueAccessThroughItsCell, ruleHiddenLoopVariablesScope, ruleWhereKeepsSkipping, ruleSetLine, ruleRawRead, ruleBlocks, ruleWhere, ruleRaisingLines, ruleParallel, ruleScopes, ruleShebangLine, ruleOneLineReader, ruleGetStackLevel, ruleParenKeepsFunctionLine, ruleLocalAccessorsAgree, ruleTemporaryNeedsPositiveIndex},
 	})
 }
 
